@@ -2,11 +2,14 @@ import NTV.Model.Round2
 import NTV.Proofs.Lemmas.TrialProofs
 import NTV.Proofs.C02
 import NTV.Proofs.Lemmas.Round2ProofsG
-/-! # C06 — integral basis (Round 2): what is proved so far.
-Closure under multiplication and p-maximality of the result (Pohst–Zassenhaus) are not proved; they are
-certified on every explored case by an independent oracle (`NTV.Spec.MaxOrder`: ring test, containment of
-the starting order, discriminant/index relation, and p-maximality at every p with p² | disc by two
-independent criteria). The theorems below are facts the routine relies on, for all inputs. -/
+import NTV.Proofs.Lemmas.Round2RingP
+/-! # C06 — integral basis (Round 2).
+Proved for all inputs (f canonical): the result is a full-rank module containing the starting order and 1 with
+disc = disc(start)/index² (`result_contains_start`), it is CLOSED UNDER MULTIPLICATION (`result_is_ring`), every
+`one_step` computes the multiplier ring of the p-radical (`one_step_semantics`), a step with `howmany = 0` proves
+p-maximality (`one_step_maximal`, Pohst–Zassenhaus), the result is p-MAXIMAL AT EVERY PRIME (`result_is_maximal`;
+at the primes with p² ∤ disc(O) because the discriminant of every order is the integral determinant of its trace
+form, `order_discriminant_is_integer`), hence contained in no strictly larger order (`result_is_maximal_order`). -/
 namespace NTV.C06
 
 /-- the set of primes the outer loop visits: `factorize(|disc|)` is the true prime factorisation of the
@@ -188,5 +191,304 @@ example : findIntegralBasis [2, 0, 0, 4] = .ok [[1, 0, 0], [0, 2, 0], [0, 0, 2]]
   decide +kernel
 
 end Structural
+
+/-! ## Closure under multiplication and p-maximality: the Round 2 algorithm (Pohst–Zassenhaus)
+
+`K = ℚ[X]/(f)` (any `f` canonical of degree `n ≥ 1`, not necessarily irreducible); an order is its stored basis
+`o` (n×n, non-singular), `omegaK f o n i ∈ K` is the class of row `i`, `el (qK f) (omegaK f o n) z = Σ z_i ω_i` the
+element with INTEGER coordinate vector `z`, `Olat hC one` the ℤ-span of the ω_i as a `Subring K` (it needs the
+multiplication table `hC` and `1 ∈ O`), `vecZ l n` the list `l` as a vector. `HasOne n o` says that (1,0,…,0) is an
+integer combination of the rows; `GoodOrder f n o` collects: `f` canonical of degree `n ≥ 1`, `o` a non-singular
+stored n×n basis containing 1 and closed under multiplication. Commutative algebra: `Lemmas/Round2RingA.lean`,
+`Round2RingB.lean`; the model: `Round2RingC`–`L.lean`; starting order: `Round2Start.lean`. -/
+section Round2Ring
+open Matrix Polynomial
+open NTV.Ord NTV.Round2 NTV.PolyG
+open NTV.RowOps (toM Rect)
+open NTV.R2Abs (el Olat radQ multR pO IdealIn PMax)
+open NTV.Round2 (HasOne GoodOrder PMaximal PMaxK)
+open NTV.TableAbs (Ctx)
+
+/-- **(M1) `mul_mod_p` and the tables.** If the table loop of `one_step` succeeds on a non-singular basis `o`
+containing 1 (p ≠ 0), then `o` IS closed under multiplication (the integrality assertions passed), and for all
+coordinate vectors `a`, `b` of length n: `mul_mod_p(a, b, table, p)` are coordinates of the product
+`(Σ a_i ω_i)(Σ b_j ω_j)` modulo `p·O`, and `mul_mod_p(a, b, table2, p²)` modulo `p²·O`. -/
+theorem mul_mod_p_semantics (f : List Int) (o : Order) (n : Nat) (hf : Canon f) (hlen : f.length = n + 1)
+    (hn : 1 ≤ n) (hr : Rect n n o) (hdet : (toM n n o).det ≠ 0) (h1 : HasOne n o) (P : ℕ) (hP : P ≠ 0)
+    (t t2 : NTV.Ord.Table) (htab : tables f o n (P : ℤ) ((P : ℤ) * (P : ℤ)) = .ok (t, t2)) (a b : List Int)
+    (ha : a.length = n) (hb : b.length = n) :
+    Closed f o n ∧
+    (∃ d : Fin n → ℤ, el (qK f) (omegaK f o n) (vecZ (mulModP a b t (P : ℤ)) n) =
+      el (qK f) (omegaK f o n) (vecZ a n) * el (qK f) (omegaK f o n) (vecZ b n) +
+        (P : ℚ[X] ⧸ Ideal.span {NTV.Alg.modulus f}) * el (qK f) (omegaK f o n) d) ∧
+    (∃ d : Fin n → ℤ, el (qK f) (omegaK f o n) (vecZ (mulModP a b t2 ((P : ℤ) * (P : ℤ))) n) =
+      el (qK f) (omegaK f o n) (vecZ a n) * el (qK f) (omegaK f o n) (vecZ b n) +
+        (P : ℚ[X] ⧸ Ideal.span {NTV.Alg.modulus f}) * (P : ℚ[X] ⧸ Ideal.span {NTV.Alg.modulus f}) *
+          el (qK f) (omegaK f o n) d) := by
+  have S : Setup f o n := ⟨hf, hlen, hn, hr, hdet⟩
+  have hp0 : (P : ℤ) ≠ 0 := by exact_mod_cast hP
+  have hcl := NTV.Round2.tables_closed S (P : ℤ) _ (mul_ne_zero hp0 hp0) t t2 htab
+  obtain ⟨_, hC⟩ := S.ctx_of_closed hcl
+  have one := h1.el_one S
+  obtain ⟨ct, ct2, hT, hT2⟩ := NTV.Round2.tables_mod S P t t2 htab hP
+  refine ⟨hcl, ?_, ?_⟩
+  · obtain ⟨_, ⟨d, rfl⟩, hd⟩ := NTV.Round2.mulModP_el hC one P (P : ℤ) (dvd_refl _) a b t ha hb ct hT
+    exact ⟨d, by rw [← hd]; ring⟩
+  · obtain ⟨_, ⟨d, rfl⟩, hd⟩ := NTV.Round2.mulModP_el hC one (P * P) ((P : ℤ) * (P : ℤ))
+      (by push_cast; exact dvd_refl _) a b t2 ha hb ct2 hT2
+    refine ⟨d, ?_⟩
+    push_cast at hd
+    rw [← hd]; ring
+
+/-- **(M1) `pow_mod_p`.** Under the same hypotheses, for an exponent `e ≥ 1` a successful
+`pow_mod_p(a, e, table, p)` returns coordinates (of length n) of `(Σ a_i ω_i)^e` modulo `p·O`. -/
+theorem pow_mod_p_semantics (f : List Int) (o : Order) (n : Nat) (hf : Canon f) (hlen : f.length = n + 1)
+    (hn : 1 ≤ n) (hr : Rect n n o) (hdet : (toM n n o).det ≠ 0) (h1 : HasOne n o) (P : ℕ) (hP : P ≠ 0)
+    (t t2 : NTV.Ord.Table) (htab : tables f o n (P : ℤ) ((P : ℤ) * (P : ℤ)) = .ok (t, t2)) (a r : List Int) (e : Int)
+    (he : 1 ≤ e) (ha : a.length = n) (hpow : powModP a e t (P : ℤ) = .ok r) :
+    r.length = n ∧ ∃ d : Fin n → ℤ, el (qK f) (omegaK f o n) (vecZ r n) =
+      el (qK f) (omegaK f o n) (vecZ a n) ^ e.toNat +
+        (P : ℚ[X] ⧸ Ideal.span {NTV.Alg.modulus f}) * el (qK f) (omegaK f o n) d := by
+  have S : Setup f o n := ⟨hf, hlen, hn, hr, hdet⟩
+  have hp0 : (P : ℤ) ≠ 0 := by exact_mod_cast hP
+  have hcl := NTV.Round2.tables_closed S (P : ℤ) _ (mul_ne_zero hp0 hp0) t t2 htab
+  obtain ⟨_, hC⟩ := S.ctx_of_closed hcl
+  have one := h1.el_one S
+  obtain ⟨ct, _, hT, _⟩ := NTV.Round2.tables_mod S P t t2 htab hP
+  obtain ⟨hl, _, ⟨d, rfl⟩, hd⟩ := NTV.Round2.powModP_el hC one P (P : ℤ) (dvd_refl _) t ct hT a r e he ha hpow
+  exact ⟨hl, d, by rw [← hd]; ring⟩
+
+/-- **(M1) the exponent.** `let mut pow = 1; while pow < deg { pow *= p }` returns the LEAST power `p^k ≥ deg` -/
+theorem pow_bound_least (deg : Nat) (p : Int) (fuel : Nat) (pow : Int)
+    (h : powBound deg p fuel 1 = .ok pow) :
+    ∃ k : ℕ, pow = p ^ k ∧ (deg : Int) ≤ pow ∧ ∀ j < k, p ^ j < (deg : Int) := by
+  obtain ⟨k, hk, h1, h2⟩ := NTV.Round2.powBound_least deg p fuel 1 pow h
+  refine ⟨k, by simpa using hk, h1, ?_⟩
+  intro j hj
+  simpa using h2 j hj
+
+example : powBound 5 2 5 1 = .ok 8 := by decide +kernel
+
+/-- **(M1) the p-radical is an ideal, and it is the radical of `pO`.** For an order `O` (ℤ-span of the ω_i, with
+multiplication table and 1), a prime `p` and `p^k ≥ n`: `I_p = {x ∈ O | x^(p^k) ∈ pO}` is an ideal of `O` containing
+`p` (the map `x ↦ x^(p^k)` is additive modulo `p`), and every `x ∈ O` with SOME power in `pO` lies in `I_p`
+(a nilpotent element of the n-dimensional 𝔽_p-algebra `O/pO` has n-th power 0). -/
+theorem p_radical_is_radical_ideal {K : Type*} [CommRing K] {n : ℕ} {q : ℚ →+* K} {Ω : Fin n → K}
+    {T : Fin n → Fin n → Fin n → ℤ} (hC : Ctx q Ω T) (one : ∃ e : Fin n → ℤ, el q Ω e = 1) (P k : ℕ)
+    (hP : P.Prime) (hk : n ≤ P ^ k) :
+    IdealIn (Olat hC one) (radQ (Olat hC one) P (P ^ k)) ∧ (P : K) ∈ radQ (Olat hC one) P (P ^ k) ∧
+    ∀ x ∈ Olat hC one, ∀ t : ℕ, x ^ t ∈ pO (Olat hC one) P → x ∈ radQ (Olat hC one) P (P ^ k) :=
+  ⟨NTV.R2Abs.radQ_ideal _ P k hP, NTV.R2Abs.p_mem_radQ _ P _ (Nat.one_le_pow _ _ hP.pos),
+    fun x hx t ht => ⟨hx, NTV.R2Abs.rad_of_pow hC one P hP (P ^ k) hk x hx t ht⟩⟩
+
+/-- **(M1) `ip` spans the p-radical.** With `table` the multiplication table modulo `p` (`TableMod`), `phiw` the rows
+`pow_mod_p(e_i, p^k, table, p)`, the truncated normal form of `HNF::kernel([phiw ; p·I])` — the matrix `i_p` of
+`one_step` — is rectangular of width n and an integer vector `v` lies in its row lattice iff
+`Σ v_i ω_i ∈ I_p = {x ∈ O | x^(p^k) ∈ pO}` (Frobenius: `(Σ v_i ω_i)^(p^k) ≡ Σ v_i ω_i^(p^k)` modulo `pO`). -/
+theorem ip_spans_radical {K : Type*} [CommRing K] {n : ℕ} {q : ℚ →+* K} {Ω : Fin n → K}
+    {T : Fin n → Fin n → Fin n → ℤ} (hC : Ctx q Ω T) (one : ∃ e : Fin n → ℤ, el q Ω e = 1) (hn : 0 < n)
+    (P k : ℕ) (hP : P.Prime) (t : NTV.Ord.Table) (ct : NTV.Round2.Cube3 n t) (hT : NTV.Round2.TableMod n t T P)
+    (phiw K0 ip0 : NTV.Ord.IMat)
+    (hphiw : tabulate n (fun i =>
+      powModP ((List.range n).map (fun j => if i = j then 1 else 0)) ((P : ℤ) ^ k) t (P : ℤ)) = .ok phiw)
+    (hK : kernelM (phiw ++ scalarRows n (P : ℤ)) = .ok K0) (hip0 : hnfM K0 = .ok ip0) :
+    ∃ r0, NTV.Hnf.Rect r0 n (ip0.map (fun row => row.take n)) ∧
+      ∀ v : Fin n → ℤ, NTV.Hnf.InLattice r0 n (ip0.map (fun row => row.take n)) v ↔
+        el q Ω v ∈ radQ (Olat hC one) P (P ^ k) :=
+  NTV.Round2.ip_lattice hC one hn P k hP t ct hT phiw K0 ip0 hphiw hK hip0
+
+/-- **(M2) the `U_p` loop.** If `ip` spans `I_p` (previous theorem) and `table2` is the multiplication table modulo
+`p²`, the fold of `upStep` over the rows of `ip`, started at `ip`, returns generators of
+`U = {u ∈ I_p | u·I_p ⊆ p·I_p}`; after the last `HNF::new(up ++ p·I)` (`NTV.Round2.u_lattice`) one gets
+`U + pO`, and `(1/p)(U + pO) = {x | x·I_p ⊆ I_p}` (`NTV.R2Abs.mem_multR_iff`). -/
+theorem up_loop_computes_U {K : Type*} [CommRing K] {n : ℕ} {q : ℚ →+* K} {Ω : Fin n → K}
+    {T : Fin n → Fin n → Fin n → ℤ} (hC : Ctx q Ω T) (one : ∃ e : Fin n → ℤ, el q Ω e = 1) (hn : 0 < n)
+    (P k : ℕ) (hP : P.Prime) (t2 : NTV.Ord.Table) (ct2 : NTV.Round2.Cube3 n t2)
+    (hT2 : NTV.Round2.TableMod n t2 T (P * P)) (ip : NTV.Ord.IMat) (r0 : ℕ) (hr0 : 0 < r0) (hip : NTV.Hnf.Rect r0 n ip)
+    (hipI : ∀ v : Fin n → ℤ, NTV.Hnf.InLattice r0 n ip v ↔ el q Ω v ∈ radQ (Olat hC one) P (P ^ k)) (up : NTV.Ord.IMat)
+    (hfold : ip.foldlM (fun up etai => upStep n (P : ℤ) ((P : ℤ) * (P : ℤ)) t2 ip up etai) ip = .ok up) :
+    ∃ r, NTV.Hnf.Rect r n up ∧ ∀ v : Fin n → ℤ, NTV.Hnf.InLattice r n up v ↔
+      el q Ω v ∈ NTV.R2Abs.U0 (radQ (Olat hC one) P (P ^ k)) P :=
+  NTV.Round2.up_lattice hC one P k hP hn t2 ct2 hT2 ip r0 hr0 hip hipI up hfold
+
+/-- **(M2) semantics of `one_step`** (Cohen, Theorem 6.1.3 (1)). For a non-singular basis `o` containing 1 and a
+PRIME `p`, a successful `one_step` certifies that `o` is closed under multiplication, returns a non-singular n×n basis
+`o'`, and — for `p^k ≥ n` the exponent used by the routine — the ℤ-span of `o'` is EXACTLY the multiplier ring
+`{x ∈ K | x·I_p ⊆ I_p}` of the p-radical `I_p = {x ∈ O | x^(p^k) ∈ pO}`. (The routine computes
+`I_p` as the kernel of `[φ ; p·I]`, `U = {u ∈ I_p | u·I_p ⊆ p·I_p}` by the `U_p` loop and `O' = (1/p)(U + pO)`:
+`NTV.Round2.ip_lattice`, `up_lattice`, `u_lattice`.) -/
+theorem one_step_semantics (f : List Int) (o : Order) (n : Nat) (hf : Canon f) (hlen : f.length = n + 1)
+    (hn : 1 ≤ n) (hr : Rect n n o) (hdet : (toM n n o).det ≠ 0) (P : ℕ) (hP : P.Prime) (o' : Order) (hm : Nat)
+    (H : oneStep f o (P : ℤ) = .ok (o', hm)) :
+    Closed f o n ∧ Rect n n o' ∧ (toM n n o').det ≠ 0 ∧
+    ∀ (hC : Ctx (qK f) (omegaK f o n) (tabT (tableOf f o n) n))
+      (one : ∃ e : Fin n → ℤ, el (qK f) (omegaK f o n) e = 1),
+      ∃ k : ℕ, n ≤ P ^ k ∧ ∀ x : ℚ[X] ⧸ Ideal.span {NTV.Alg.modulus f},
+        (∃ z : Fin n → ℤ, x = el (qK f) (omegaK f o' n) z) ↔
+          x ∈ multR (radQ (Olat hC one) P (P ^ k)) := by
+  obtain ⟨h1, S', h3⟩ := NTV.Round2.oneStep_sem ⟨hf, hlen, hn, hr, hdet⟩ P hP o' hm H
+  exact ⟨h1, S'.rect, S'.det, h3⟩
+
+/-- **(M3) the new order is a ring.** For a non-singular stored basis `o` containing 1 and a prime `p`, a successful
+`one_step` returns a good order: non-singular, stored, containing 1 and CLOSED UNDER MULTIPLICATION (a multiplier ring
+is a ring); `o` itself was closed (certified by the table loop). -/
+theorem one_step_ring (f : List Int) (o : Order) (n : Nat) (hf : Canon f) (hlen : f.length = n + 1)
+    (hn : 1 ≤ n) (hr : Rect n n o) (hdet : (toM n n o).det ≠ 0) (hst : fromBasis o = .ok o) (h1 : HasOne n o)
+    (P : ℕ) (hP : P.Prime) (o' : Order) (hm : Nat) (H : oneStep f o (P : ℤ) = .ok (o', hm)) :
+    Closed f o n ∧ GoodOrder f n o' ∧ Closed f o' n := by
+  have S : Setup f o n := ⟨hf, hlen, hn, hr, hdet⟩
+  obtain ⟨hcl, _, _⟩ := NTV.Round2.oneStep_closed S h1 P hP o' hm H
+  have g' := (NTV.Round2.oneStep_good ⟨S, hst, h1, hcl⟩ P hP o' hm H).1
+  exact ⟨hcl, g', g'.closed⟩
+
+theorem hasOne_identity2 : HasOne 2 ([[1, 0], [0, 1]] : QMat) := by
+  refine ⟨fun i => if i = 0 then 1 else 0, ?_⟩
+  funext j
+  fin_cases j <;> simp [Matrix.vecMul, dotProduct, toM, NTV.RowOps.ent]
+
+/-- non-vacuity: f = x² + 3, o = Z[θ], p = 2: the new order Z[(1+θ)/2] is closed under multiplication -/
+example : Closed [3, 0, 1] [[1, 0], [1/2, 1/2]] 2 := by
+  have hdet : (toM 2 2 ([[1, 0], [0, 1]] : QMat)).det ≠ 0 := by
+    rw [Matrix.det_fin_two]; simp [toM, NTV.RowOps.ent]
+  have H : oneStep [3, 0, 1] [[1, 0], [0, 1]] ((2 : ℕ) : ℤ) = .ok ([[1, 0], [1/2, 1/2]], 1) := by decide +kernel
+  have hst : fromBasis ([[1, 0], [0, 1]] : QMat) = .ok [[1, 0], [0, 1]] := by decide +kernel
+  exact (one_step_ring [3, 0, 1] [[1, 0], [0, 1]] 2 (by simp [Canon]) rfl (by decide) ⟨rfl, by simp⟩ hdet
+    hst hasOne_identity2 2 Nat.prime_two _ 1 H).2.2
+
+/-- **(M3) the result of `find_integral_basis` is closed under multiplication**: for every canonical `f`, a returned
+`O` is a good order — n×n non-singular (n = deg f ≥ 1), stored, containing 1, and every product of two basis vectors is
+an INTEGRAL combination of the basis vectors (`Closed`: so `Order::get_mult_table` succeeds on it, C14). The
+starting order `Z[θ] ∩ Z[1/θ]` is a ring for non-monic `f` as well (`NTV.Round2.start_closed`). -/
+theorem result_is_ring (f : List Int) (hf : Canon f) (O : Order) (H : findIntegralBasis f = .ok O) :
+    GoodOrder f (degU f) O ∧ Closed f O (degU f) := by
+  have g := NTV.Round2.findIntegralBasis_good f hf O H
+  exact ⟨g, g.closed⟩
+
+/-- non-vacuity: Dedekind's cubic x³ − x² − 2x − 8 (index 2) and the non-monic 4x³ + 2 -/
+example : Closed [-8, -2, -1, 1] [[1, 0, 0], [0, 1, 0], [0, 1/2, 1/2]] 3 :=
+  (result_is_ring [-8, -2, -1, 1] (by simp [Canon]) [[1, 0, 0], [0, 1, 0], [0, 1/2, 1/2]] (by decide +kernel)).2
+
+example : Closed [2, 0, 0, 4] [[1, 0, 0], [0, 2, 0], [0, 0, 2]] 3 :=
+  (result_is_ring [2, 0, 0, 4] (by simp [Canon]) [[1, 0, 0], [0, 2, 0], [0, 0, 2]] (by decide +kernel)).2
+
+/-- **(M4) Pohst–Zassenhaus** (Cohen, Theorem 6.1.3 (2)). If `one_step` on a non-singular stored basis `o` containing
+1 and a prime `p` returns `howmany = 0` (the multiplier ring of the p-radical is `O` itself), then `O` is p-MAXIMAL:
+every order `S ⊇ O` (non-singular n×n basis, closed under multiplication) with `p^r·S ⊆ O` for some `r` — i.e. in which
+`O` has p-power index — is contained in `O` (`NTV.Round2.PMaximal`). -/
+theorem one_step_maximal (f : List Int) (o : Order) (n : Nat) (hf : Canon f) (hlen : f.length = n + 1)
+    (hn : 1 ≤ n) (hr : Rect n n o) (hdet : (toM n n o).det ≠ 0) (hst : fromBasis o = .ok o) (h1 : HasOne n o)
+    (P : ℕ) (hP : P.Prime) (o' : Order) (H : oneStep f o (P : ℤ) = .ok (o', 0)) :
+    PMaximal f n o P := by
+  have S : Setup f o n := ⟨hf, hlen, hn, hr, hdet⟩
+  obtain ⟨hcl, _, _⟩ := NTV.Round2.oneStep_closed S h1 P hP o' 0 H
+  have g : GoodOrder f n o := ⟨S, hst, h1, hcl⟩
+  exact (NTV.Round2.oneStep_max g P hP o' H).pmaximal g
+
+/-- the statement of p-maximality, unfolded -/
+theorem pMaximal_iff (f : List Int) (n : Nat) (O : QMat) (p : ℕ) :
+    PMaximal f n O p ↔
+      ∀ S : QMat, Rect n n S → (toM n n S).det ≠ 0 → Closed f S n →
+        (∃ A : Matrix (Fin n) (Fin n) ℤ, toM n n O = A.map (Int.castRingHom ℚ) * toM n n S) →
+        (∃ (r : ℕ) (B : Matrix (Fin n) (Fin n) ℤ),
+          ((p : ℚ) ^ r) • toM n n S = B.map (Int.castRingHom ℚ) * toM n n O) →
+        ∃ R : Matrix (Fin n) (Fin n) ℤ, toM n n S = R.map (Int.castRingHom ℚ) * toM n n O := Iff.rfl
+
+theorem hasOne_eisenstein : HasOne 2 ([[1, 0], [1/2, 1/2]] : QMat) := by
+  refine ⟨fun i => if i = 0 then 1 else 0, ?_⟩
+  funext j
+  fin_cases j <;> simp [Matrix.vecMul, dotProduct, toM, NTV.RowOps.ent]
+
+/-- non-vacuity: Z[(1+√−3)/2] is 2-maximal and 3-maximal (`one_step` returns howmany = 0) -/
+example : PMaximal [3, 0, 1] 2 [[1, 0], [1/2, 1/2]] 2 ∧ PMaximal [3, 0, 1] 2 [[1, 0], [1/2, 1/2]] 3 := by
+  have hdet : (toM 2 2 ([[1, 0], [1/2, 1/2]] : QMat)).det ≠ 0 := by
+    rw [Matrix.det_fin_two]; simp [toM, NTV.RowOps.ent]
+  have H2 : oneStep [3, 0, 1] [[1, 0], [1/2, 1/2]] ((2 : ℕ) : ℤ) = .ok ([[1, 0], [1/2, 1/2]], 0) := by
+    decide +kernel
+  have H3 : oneStep [3, 0, 1] [[1, 0], [1/2, 1/2]] ((3 : ℕ) : ℤ) = .ok ([[1, 0], [1/2, 1/2]], 0) := by
+    decide +kernel
+  have hst : fromBasis ([[1, 0], [1/2, 1/2]] : QMat) = .ok [[1, 0], [1/2, 1/2]] := by decide +kernel
+  exact ⟨one_step_maximal [3, 0, 1] _ 2 (by simp [Canon]) rfl (by decide) ⟨rfl, by simp⟩ hdet
+      hst hasOne_eisenstein 2 Nat.prime_two _ H2,
+    one_step_maximal [3, 0, 1] _ 2 (by simp [Canon]) rfl (by decide) ⟨rfl, by simp⟩ hdet
+      hst hasOne_eisenstein 3 Nat.prime_three _ H3⟩
+
+/-- **(M4) maximality of the result, first half** (superseded by `result_is_maximal` below, kept because it shows the
+mechanism). For every canonical `f`: a returned `O` is p-maximal at every prime `p` whose square divides the
+discriminant of `O` (as computed by `Order::discriminant`): the loop for such a `p` can only have ended with
+`howmany = 0` (Pohst–Zassenhaus), and the later primes enlarge the order by indices prime to `p`, which preserves
+p-maximality. The primes with `p² ∤ disc(O)` are handled by `result_is_maximal` through the trace form. -/
+theorem result_is_maximal_at_square_primes (f : List Int) (hf : Canon f) (O : Order) (H : findIntegralBasis f = .ok O)
+    (p : ℕ) (hp : p.Prime) (dO : ℤ) (hdO : discriminantOrd O f = .ok dO) (hdvd : (p : ℤ) ^ 2 ∣ dO) :
+    PMaximal f (degU f) O p :=
+  (NTV.Round2.findIntegralBasis_max f hf O H p hp dO hdO hdvd).pmaximal
+    (NTV.Round2.findIntegralBasis_good f hf O H)
+
+/-- non-vacuity: f = x² + 1: the result Z[i] has discriminant −4 and is 2-maximal -/
+example : PMaximal [1, 0, 1] 2 [[1, 0], [0, 1]] 2 :=
+  result_is_maximal_at_square_primes [1, 0, 1] (by simp [Canon]) [[1, 0], [0, 1]] (by decide +kernel) 2 Nat.prime_two (-4)
+    (by decide +kernel) (by decide)
+
+/-- **the discriminant of an order is an integer** — `Order::discriminant` never panics on a non-singular basis that
+is closed under multiplication: `disc(f)·det²/lc(f)^(2n−2)` is (exactly) the determinant of the integral trace form
+`Tr(ω_i ω_j)` (`NTV.DiscrTrace.discr_powerBasis_adjoinRoot_eq`: for every non-zero `F` of degree n ≥ 1 over a field,
+the trace-form discriminant of 1, θ, …, θ^(n−1) in `k[X]/(F)` is `discr F / lc(F)^(2n−2)`). -/
+theorem order_discriminant_is_integer (f : List Int) (o : Order) (n : Nat) (hf : Canon f)
+    (hlen : f.length = n + 1) (hn : 1 ≤ n) (hr : Rect n n o) (hdet : (toM n n o).det ≠ 0)
+    (hcl : Closed f o n) : ∃ d : ℤ, discriminantOrd o f = .ok d :=
+  NTV.Round2.discriminantOrd_closed ⟨hf, hlen, hn, hr, hdet⟩ hcl
+
+/-- **one step and the discriminant — FULL** (the divisibility hypothesis of `one_step_discriminant_partial` is now a
+theorem): for a non-singular stored basis `o` containing 1 and a prime `p`, after a successful `one_step` both
+discriminants are computed without a panic and disc(o) = p^(2·howmany)·disc(o'). -/
+theorem one_step_discriminant (f : List Int) (o : Order) (n : Nat) (hf : Canon f) (hlen : f.length = n + 1)
+    (hn : 1 ≤ n) (hr : Rect n n o) (hdet : (toM n n o).det ≠ 0) (hst : fromBasis o = .ok o) (h1 : HasOne n o)
+    (P : ℕ) (hP : P.Prime) (o' : Order) (hm : Nat) (H : oneStep f o (P : ℤ) = .ok (o', hm)) :
+    ∃ d d' : ℤ, discriminantOrd o f = .ok d ∧ discriminantOrd o' f = .ok d' ∧ d = (P : ℤ) ^ (2 * hm) * d' := by
+  have S : Setup f o n := ⟨hf, hlen, hn, hr, hdet⟩
+  obtain ⟨hcl, _, _⟩ := NTV.Round2.oneStep_closed S h1 P hP o' hm H
+  obtain ⟨g', ext⟩ := NTV.Round2.oneStep_good ⟨S, hst, h1, hcl⟩ P hP o' hm H
+  obtain ⟨d', hd'⟩ := NTV.Round2.discriminantOrd_closed g'.setup g'.closed
+  refine ⟨_, d', disc_of_ext' hr ext f d' hd', hd', ?_⟩
+  rw [← pow_two, ← pow_mul, Nat.mul_comm]
+
+/-- **(M4) the result of `find_integral_basis` is p-maximal at EVERY prime p** (f canonical): every order `S ⊇ O`
+(non-singular n×n basis closed under multiplication) with `p^r·S ⊆ O` for some `r` is contained in `O`. For
+`p² | disc(O)` the loop for `p` ended with `howmany = 0` (`one_step_maximal`) and the later primes have indices prime
+to `p`; for `p² ∤ disc(O)` a strictly larger `S` would have index `p^j`, `j ≥ 1`, and `disc(O) = p^(2j)·disc(S)` with
+`disc(S)` an integer (`order_discriminant_is_integer`). -/
+theorem result_is_maximal (f : List Int) (hf : Canon f) (O : Order) (H : findIntegralBasis f = .ok O)
+    (p : ℕ) (hp : p.Prime) : PMaximal f (degU f) O p :=
+  NTV.Round2.findIntegralBasis_pmaximal_all f hf O H p hp
+
+/-- non-vacuity: Dedekind's cubic x³ − x² − 2x − 8: the result (index 2 in Z[θ], disc −503) is 2-maximal;
+here 2² ∤ −503, so this instance goes through the trace form -/
+example : PMaximal [-8, -2, -1, 1] 3 [[1, 0, 0], [0, 1, 0], [0, 1/2, 1/2]] 2 :=
+  result_is_maximal [-8, -2, -1, 1] (by simp [Canon]) [[1, 0, 0], [0, 1, 0], [0, 1/2, 1/2]] (by decide +kernel) 2
+    Nat.prime_two
+
+/-- **so no strictly larger order exists**: the result of `find_integral_basis` contains every order (non-singular
+n×n basis closed under multiplication) that contains it — it is THE maximal order of `ℚ[x]/(f)` among the orders
+containing the starting order. -/
+theorem result_is_maximal_order (f : List Int) (hf : Canon f) (O : Order) (H : findIntegralBasis f = .ok O)
+    (S : QMat) (hS : Rect (degU f) (degU f) S) (hdS : (toM (degU f) (degU f) S).det ≠ 0)
+    (hcS : Closed f S (degU f))
+    (hOS : ∃ A : Matrix (Fin (degU f)) (Fin (degU f)) ℤ,
+      toM (degU f) (degU f) O = A.map (Int.castRingHom ℚ) * toM (degU f) (degU f) S) :
+    ∃ R : Matrix (Fin (degU f)) (Fin (degU f)) ℤ,
+      toM (degU f) (degU f) S = R.map (Int.castRingHom ℚ) * toM (degU f) (degU f) O :=
+  NTV.Round2.findIntegralBasis_maximal f hf O H S hS hdS hcS hOS
+
+/-- non-vacuity: the hypotheses are satisfiable (S = O = Z[(1+√5)/2] for f = x² − 5) -/
+example : ∃ R : Matrix (Fin 2) (Fin 2) ℤ,
+    toM 2 2 ([[1, 0], [1/2, 1/2]] : QMat) = R.map (Int.castRingHom ℚ) * toM 2 2 ([[1, 0], [1/2, 1/2]] : QMat) := by
+  have H : findIntegralBasis [-5, 0, 1] = .ok [[1, 0], [1/2, 1/2]] := by decide +kernel
+  have hdet : (toM 2 2 ([[1, 0], [1/2, 1/2]] : QMat)).det ≠ 0 := by
+    rw [Matrix.det_fin_two]; simp [toM, NTV.RowOps.ent]
+  have hr : Rect 2 2 ([[1, 0], [1/2, 1/2]] : QMat) := ⟨rfl, by simp⟩
+  exact result_is_maximal_order [-5, 0, 1] (by simp [Canon]) _ H _ hr hdet
+    (result_is_ring [-5, 0, 1] (by simp [Canon]) _ H).2 ⟨1, by simp⟩
+
+
+end Round2Ring
 
 end NTV.C06
